@@ -23,34 +23,28 @@ Proof. intros A k [|x l] v H; [discriminate|reflexivity]. Qed.
 Lemma slookup_some_not_nil : forall A k (l : list (string * A)) v, slookup k l = Some v -> is_nil l = false.
 Proof. intros A k [|x l] v H; [discriminate|reflexivity]. Qed.
 
-Lemma group_truthy_some : forall g, group_truthy (Some g) = negb (String.eqb g "").
-Proof. reflexivity. Qed.
-
 (* ------------------------------------------------------------------ relevant_section *)
 
 Lemma relevant_section_iff : forall P pn g s,
-  (relevant_section P pn g = Some s /\ (group_truthy g = true -> is_nil s = false))
-  <-> (exists b, slookup pn P = Some b /\ code_section b g s /\ (group_truthy g = true -> is_nil s = false)).
+  (relevant_section P pn g = Some s /\ (g <> None -> is_nil s = false))
+  <-> (exists b, slookup pn P = Some b /\ code_section b g s /\ (g <> None -> is_nil s = false)).
 Proof.
   intros P pn g s. unfold relevant_section. split.
   - intros [H Hn]. destruct (slookup pn P) as [b|] eqn:Eb; [|discriminate].
     exists b. split; [reflexivity|]. split; [|exact Hn].
     destruct (bundle_falsy b) eqn:Ef; [discriminate|].
     destruct g as [gn|]; simpl in *.
-    + destruct (String.eqb gn "") eqn:Eg; simpl in *.
-      * exact H.
-      * destruct (groups b) as [gm|] eqn:Egm; [|discriminate].
-        destruct (is_nil gm); [discriminate|].
-        destruct (slookup gn gm) as [s'|] eqn:Es; [|discriminate].
-        destruct (is_nil s'); [discriminate|]. inversion H; subst.
-        exists gm. split; [reflexivity|exact Es].
+    + destruct (groups b) as [gm|] eqn:Egm; [|discriminate].
+      destruct (is_nil gm); [discriminate|].
+      destruct (slookup gn gm) as [s'|] eqn:Es; [|discriminate].
+      destruct (is_nil s'); [discriminate|]. inversion H; subst.
+      exists gm. split; [reflexivity|exact Es].
     + exact H.
   - intros [b [Eb [Hc Hn]]]. rewrite Eb. split; [|exact Hn].
     destruct g as [gn|]; simpl in *.
-    + destruct (String.eqb gn "") eqn:Eg; simpl in *.
-      * unfold bundle_falsy. rewrite Hc. reflexivity.
-      * destruct Hc as [gm [Egm Es]]. unfold bundle_falsy. rewrite Egm.
-        destruct (preset b); simpl; rewrite (slookup_some_not_nil _ _ _ _ Es), Es, (Hn eq_refl); reflexivity.
+    + destruct Hc as [gm [Egm Es]]. unfold bundle_falsy. rewrite Egm.
+      assert (Hs : is_nil s = false) by (apply Hn; discriminate).
+      destruct (preset b); simpl; rewrite (slookup_some_not_nil _ _ _ _ Es), Es, Hs; reflexivity.
     + unfold bundle_falsy. rewrite Hc. reflexivity.
 Qed.
 
@@ -86,11 +80,11 @@ Proof.
   intros. unfold is_allowed. split.
   - destruct (relevant_section P pn g) as [s|] eqn:Er; [|discriminate]. intro H.
     apply is_allowed_section in H.
-    assert (Hn : group_truthy g = true -> is_nil s = false) by (intros _; eapply section_grants_not_nil; eauto).
+    assert (Hn : g <> None -> is_nil s = false) by (intros _; eapply section_grants_not_nil; eauto).
     destruct (proj1 (relevant_section_iff P pn g s) (conj Er Hn)) as [b [Eb [Hc _]]].
     exists b, s. auto.
   - intros [b [s [Eb [Hc Hg]]]].
-    assert (Hn : group_truthy g = true -> is_nil s = false) by (intros _; eapply section_grants_not_nil; eauto).
+    assert (Hn : g <> None -> is_nil s = false) by (intros _; eapply section_grants_not_nil; eauto).
     destruct (proj2 (relevant_section_iff P pn g s)) as [Er _]; [exists b; auto|].
     rewrite Er. now apply is_allowed_section.
 Qed.
@@ -125,17 +119,13 @@ Qed.
 
 (* ------------------------------------------------------------------ soundness *)
 
-Lemma decision_sound_partial_l : forall P pn id owner ot op,
-  wf_identity id ->
+Lemma decision_sound_l : forall P pn id owner ot op,
   allowed_by_policy P pn id owner ot op = true -> granted_spec P pn id owner ot op.
 Proof.
-  intros P pn id owner ot op Hwf H. apply decision_table_l in H.
+  intros P pn id owner ot op H. apply decision_table_l in H.
   destruct H as [b [s [Eb [Hc Hg]]]]. exists b. split; [exact Eb|].
-  unfold wf_identity in Hwf. destruct (id_groups id) as [gs|].
-  - destruct Hc as [g [Hin Hc]]. simpl in Hc.
-    destruct (String.eqb g "") eqn:Eg.
-    + apply String.eqb_eq in Eg. subst. contradiction.
-    + destruct Hc as [gm [Egm Es]]. left. exists g, gm, s. auto.
+  destruct (id_groups id) as [gs|].
+  - destruct Hc as [g [Hin [gm [Egm Es]]]]. left. exists g, gm, s. auto.
   - simpl in Hc. exists s. auto.
 Qed.
 
@@ -149,25 +139,16 @@ Proof.
   - intros [b [Eb [s [Hc Hg]]]]. exists b, s. auto.
 Qed.
 
-(* witness for finding C03-empty-group-name: policy with a permissive preset and a
-   groups section; the requester's only group is "" - no group entry applies, yet
-   the engine consults the preset *)
+(* regression witness for the repaired finding C03-empty-group-name (commit 512fea4): a policy with a permissive
+   preset and a groups section; the requester's only group is "" - no group entry applies, and the engine
+   no longer consults the preset *)
 Definition f11_policies : policies :=
   [("p", {| preset := Some [(2, [(10, AllowAll)])];
             groups := Some [("A", [(2, [(10, DisallowAll)])])] |})].
 Definition f11_identity : identity := {| id_user := Some "bob"; id_groups := Some [""] |}.
 
-Lemma decision_sound_refuted_l :
-  exists P pn id owner ot op,
-    allowed_by_policy P pn id owner ot op = true /\ ~ granted_spec P pn id owner ot op.
-Proof.
-  exists f11_policies, "p", f11_identity, (Some "alice"), 2, 10. split; [vm_compute; reflexivity|].
-  intros [b [Eb H]]. vm_compute in Eb. inversion Eb; subst b; clear Eb. simpl in H.
-  destruct H as [[g [gm [s [Hin [Egm [Es _]]]]]]|[[Hd|Hd] _]].
-  - destruct Hin as [<-|[]]. inversion Egm; subst gm. vm_compute in Es. discriminate.
-  - discriminate.
-  - discriminate.
-Qed.
+Lemma empty_group_name_denied_l : allowed_by_policy f11_policies "p" f11_identity (Some "alice") 2 10 = false.
+Proof. vm_compute. reflexivity. Qed.
 
 (* the converse of soundness fails in the restrictive direction (DESIGN F10):
    group information present + policy with only a preset section -> denied,
@@ -177,10 +158,10 @@ Definition f10_policies : policies :=
 
 Lemma converse_counterexample_l :
   exists P pn id owner ot op,
-    wf_identity id /\ granted_spec P pn id owner ot op /\ allowed_by_policy P pn id owner ot op = false.
+    granted_spec P pn id owner ot op /\ allowed_by_policy P pn id owner ot op = false.
 Proof.
   exists f10_policies, "default", {| id_user := Some "alice"; id_groups := Some ["A"] |}, (Some "alice"), 2, 10.
-  split; [|split]; [simpl; intros [H|[]]; discriminate| |vm_compute; reflexivity].
+  split; [|vm_compute; reflexivity].
   eexists. split; [vm_compute; reflexivity|]. simpl. right. split; [left; reflexivity|].
   eexists. split; [reflexivity|]. exists [(10, AllowOwner)], AllowOwner.
   split; [reflexivity|]. split; [reflexivity|]. right. auto.
@@ -204,31 +185,27 @@ Proof.
 Qed.
 
 Lemma deny_groups_missing : forall P pn b id gs owner ot op,
-  slookup pn P = Some b -> id_groups id = Some gs -> ~ In "" gs ->
+  slookup pn P = Some b -> id_groups id = Some gs ->
   (groups b = None \/ groups b = Some []) ->
   allowed_by_policy P pn id owner ot op = false.
 Proof.
-  intros P pn b id gs owner ot op Eb Eg Hwf Hn.
+  intros P pn b id gs owner ot op Eb Eg Hn.
   destruct (allowed_by_policy _ _ _ _ _ _) eqn:E; [|reflexivity].
   apply decision_table_l in E. destruct E as [b' [s [Eb' [Hc _]]]]. rewrite Eg in Hc.
-  destruct Hc as [g [Hin Hc]]. simpl in Hc. destruct (String.eqb g "") eqn:E0.
-  - apply String.eqb_eq in E0. subst. contradiction.
-  - destruct Hc as [gm [Egm Es]]. assert (b' = b) by congruence. subst.
-    destruct Hn as [Hn|Hn]; rewrite Hn in Egm; [discriminate|]. inversion Egm; subst. discriminate.
+  destruct Hc as [g [Hin [gm [Egm Es]]]]. assert (b' = b) by congruence. subst.
+  destruct Hn as [Hn|Hn]; rewrite Hn in Egm; [discriminate|]. inversion Egm; subst. discriminate.
 Qed.
 
 Lemma deny_group_entry_missing : forall P pn b id gs gm owner ot op,
-  slookup pn P = Some b -> id_groups id = Some gs -> ~ In "" gs -> groups b = Some gm ->
+  slookup pn P = Some b -> id_groups id = Some gs -> groups b = Some gm ->
   (forall g, In g gs -> slookup g gm = None) ->
   allowed_by_policy P pn id owner ot op = false.
 Proof.
-  intros P pn b id gs gm owner ot op Eb Eg Hwf Egm Hnone.
+  intros P pn b id gs gm owner ot op Eb Eg Egm Hnone.
   destruct (allowed_by_policy _ _ _ _ _ _) eqn:E; [|reflexivity].
   apply decision_table_l in E. destruct E as [b' [s [Eb' [Hc _]]]]. rewrite Eg in Hc.
-  destruct Hc as [g [Hin Hc]]. simpl in Hc. destruct (String.eqb g "") eqn:E0.
-  - apply String.eqb_eq in E0. subst. contradiction.
-  - destruct Hc as [gm' [Egm' Es]]. assert (b' = b) by congruence. subst.
-    assert (gm' = gm) by congruence. subst. rewrite (Hnone g Hin) in Es. discriminate.
+  destruct Hc as [g [Hin [gm' [Egm' Es]]]]. assert (b' = b) by congruence. subst.
+  assert (gm' = gm) by congruence. subst. rewrite (Hnone g Hin) in Es. discriminate.
 Qed.
 
 Lemma deny_empty_group_list : forall P pn u owner ot op,
@@ -262,9 +239,7 @@ Proof.
   assert (b' = b) by congruence. subst. exfalso.
   assert (Hs : section_silent s (id_user id) owner ot op).
   { destruct (id_groups id) as [gs|].
-    - destruct Hc as [g [_ Hc]]. simpl in Hc. destruct (String.eqb g "").
-      + now apply Hp.
-      + destruct Hc as [gm [Egm Es]]. eapply Hg; eauto.
+    - destruct Hc as [g [_ [gm [Egm Es]]]]. eapply Hg; eauto.
     - now apply Hp. }
   exact (silent_not_grants _ _ _ _ _ Hs Hgr).
 Qed.
@@ -276,19 +251,13 @@ Definition group_section_grants (P : policies) (pn g : string) (u owner : user) 
                  section_grants s u owner ot op.
 
 Lemma most_permissive_group_l : forall P pn u gs owner ot op,
-  ~ In "" gs ->
-  (allowed_by_policy P pn {| id_user := u; id_groups := Some gs |} owner ot op = true
-   <-> exists g, In g gs /\ group_section_grants P pn g u owner ot op).
+  allowed_by_policy P pn {| id_user := u; id_groups := Some gs |} owner ot op = true
+  <-> exists g, In g gs /\ group_section_grants P pn g u owner ot op.
 Proof.
-  intros P pn u gs owner ot op Hwf. rewrite decision_table_l. unfold table_spec, group_section_grants. simpl. split.
-  - intros [b [s [Eb [[g [Hin Hc]] Hg]]]]. exists g. split; [exact Hin|]. simpl in Hc.
-    destruct (String.eqb g "") eqn:E0.
-    + apply String.eqb_eq in E0. subst. contradiction.
-    + destruct Hc as [gm [Egm Es]]. exists b, gm, s. auto.
+  intros P pn u gs owner ot op. rewrite decision_table_l. unfold table_spec, group_section_grants. simpl. split.
+  - intros [b [s [Eb [[g [Hin [gm [Egm Es]]]] Hg]]]]. exists g. split; [exact Hin|]. exists b, gm, s. auto.
   - intros [g [Hin [b [gm [s [Eb [Egm [Es Hg]]]]]]]]. exists b, s. split; [exact Eb|]. split; [|exact Hg].
-    exists g. split; [exact Hin|]. simpl. destruct (String.eqb g "") eqn:E0.
-    + apply String.eqb_eq in E0. subst. contradiction.
-    + exists gm. auto.
+    exists g. split; [exact Hin|]. exists gm. auto.
 Qed.
 
 (* belonging to more groups never takes a permission away *)
@@ -313,8 +282,6 @@ Proof.
   destruct H as [b [s [Eb [Hc [om [p [Eo [Ep [->|[-> Hu]]]]]]]]]]; [right|left; exact Hu].
   exists b, s, om. repeat split; auto.
   destruct (id_groups id) as [gs|].
-  - destruct Hc as [g [_ Hc]]. simpl in Hc. destruct (String.eqb g "").
-    + left; exact Hc.
-    + destruct Hc as [gm [Egm Es]]. right. exists gm, g. auto.
+  - destruct Hc as [g [_ [gm [Egm Es]]]]. right. exists gm, g. auto.
   - left. exact Hc.
 Qed.
